@@ -93,7 +93,7 @@ func (d *tlbDrv) decode(name string, t reflect.Type, class string, root *node, s
 		return
 	}
 	cells, bits, capped := measure(c)
-	in := ev.M{"type": name, "cells": cells, "bits": bits, "capped": capped, "val": false, "seedid": -1}
+	in := ev.M{"type": name, "cells": cells, "bits": bits, "capped": capped, "val": false, "seedid": -1, "use": ""}
 	if src != nil {
 		for k, v := range src {
 			in[k] = v
@@ -107,13 +107,15 @@ func (d *tlbDrv) decode(name string, t reflect.Type, class string, root *node, s
 	}
 	_, hasast := d.asts[name]
 	var p reflect.Value
-	d.r.CallPost("Decode", site, class, in, []string{"type", "cells", "bits", "capped", "val", "seedid"}, func(out ev.M) error {
+	d.r.CallPost("Decode", site, class, in, []string{"type", "cells", "bits", "capped", "val", "seedid", "use"}, func(out ev.M) error {
 		p = reflect.New(t)
 		if useDecoder {
 			return tlb.NewDecoder().Unmarshal(c, p.Interface())
 		}
 		return tlb.Unmarshal(c, p.Interface())
 	}, func(out ev.M) {
+		// the value is described first: accessors with pointer receivers may change it
+		defer func() { out["use"] = useValue(p) }()
 		if !hasast || cells > MaxValueTree || d.quota[name] <= 0 {
 			return
 		}
